@@ -3,6 +3,9 @@
 import json, os, subprocess
 V = os.path.dirname(os.path.dirname(os.path.abspath(__file__)))
 TEXT = {
+ 'C08': ('residual monitor: real BubblePoint/DewPoint solvers called on random compositions; the defining equation is re-evaluated at the returned point from the solver\'s own gamma/phi/pcf/Psat objects; normalisation, inverse relation, bracketing, single-component limit, permutation and scale checked',
+         'Exploration: seeded compositions of 1-5 of 11 volatile chemicals incl. zeros and traces, T 260-480 K, P 5e3-3e6 Pa, Dortmund and ideal packages, permutations for n<=4, scale factors 0.5/2/1e-3/1e3.',
+         'Dew-side clauses are judged strictly on within-family and ideal-package inputs; on cross-family non-ideal inputs a dew-side failure is the recorded finding (bubble-side clauses stay strict everywhere).'),
  'C07': ('identity monitor on the real Chemical.H/S/Cn functors and mixture models: reference values, wiring of the Cn integrals, finite differences on well-conditioned and synthetic polynomial models, gas pressure term, jumps at Tb/Tm, mole-weighted sums, extensivity, measured coefficient of the mixing term',
          'Exploration: 22 database chemicals x 3 reference phases x 3 phases on random T grids and 3 pressures; 40/400 synthetic chemicals with all orderings of T_ref, Tm, Tb; 300/6000 random mixtures. The symbolic clause of the quantifier is out of reach for runtime monitoring (DESIGN section 6) and is replaced by this evaluation.',
          'Finite-difference clauses skip database models whose own integral disagrees with their values (conditioning probe); R is the library constant.'),
